@@ -39,7 +39,16 @@ def main():
             if a.pid not in f["properties"] or "witness" not in f:
                 continue
             try:
-                r = eng.replay(a.pid, f["witness"])
+                w = f["witness"]
+                if isinstance(w, dict) and a.pid in w and "prim" not in w:
+                    w = w[a.pid]
+                elif isinstance(w, dict) and "default" in w and "prim" not in w:
+                    w = w["default"]
+                if a.pid == "C15" and isinstance(w, dict) and "prim" in w:
+                    w = {"kind": "option", "mode": f.get("witness_mode", "rev"), "case": w}
+                if a.pid == "C06" and isinstance(w, dict) and "prim" in w:
+                    w = {"kind": "cat", "case": w}
+                r = eng.replay(a.pid, w)
                 vs = r.get("violations", [])
                 out[f["id"]] = {"reproduces": bool(vs), "sig": vs[0]["sig"] if vs else None, "detail": vs[0].get("detail") if vs else None, "not_judged": r.get("not_judged")}
             except Exception:
